@@ -128,7 +128,9 @@ def gen_cfg(rng, small=True, modes=None):
     for _ in range(200):
         n, d = rng.choice([(1, 1), (100, 1), (200, 3), (10 ** 6, 3), (10 ** 8, 7), (25 * 10 ** 6, 3), (48000, 1),
                            (1000, 7), (2 ** 31 - 1, 10 ** 9), (10, 1), (1000, 1), (15, 1), (3, 1), (25, 1), (30000, 1), (40000, 3),
-                           (50000, 1)])
+                           (50000, 1),
+                           # rates not in lowest terms are stored and used as given
+                           (200, 2), (10 ** 6, 1000), (3000, 30)])
         sc, fc = rng.choice([(1, 20), (2, 400), (3600, 1000), (1, 1), (10, 2500), (1, 1000), (3600, 60000), (1, 250),
                              (2, 100), (1, 5), (3600, 1), (3600, 2)])
         pf = fc * n // (1000 * d)
